@@ -33,6 +33,8 @@ PROPS = {
     'C10': ('c10', 'other', ['SQuIDS', 'SUNalg', 'instantiate']),
     'C05': ('c05', 'other', ['SQuIDS', 'SUNalg', 'instantiate']),
     'C17': ('c17', 'other', ['SQuIDS', 'SUNalg', 'instantiate']),
+    'C18': ('c18', 'other', ['SUNalg', 'MatrixExp', 'SQuIDS', 'const', 'instantiate']),
+    'C19': ('c19', 'other', ['cache_shared', 'SUNalg']),
     'C15': ('c15', 'other', ['SUNalg', 'instantiate', 'const', 'SQuIDS', 'MatrixExp']),
 }
 
